@@ -684,7 +684,7 @@ def run_case(case):
                     mon["energy_guard_failed"] += 1
                     obs.setdefault("energy_guard_failed", []).append({"mode": mo, "row": r, "dE": guard})
                     continue
-                upd("energy_guard", guard, gtol)
+                upd("guard_energy_centre_not_a_verdict_bound", guard, gtol)
                 F = outs[mo]["force"][r, :n]
                 worst = None
                 for k, d in enumerate(dirs):
